@@ -443,8 +443,9 @@ fn main() {
         let (slots, ok, foreign, barrier, limit) = (slots.clone(), ok.clone(), foreign.clone(), barrier.clone(), limit.clone());
         std::thread::spawn(move || {
             for round in 0..ROUNDS {
-                if id == 0 && round > 0 {
-                    let prev = (ok[round - 1].load(Ordering::SeqCst), foreign[round - 1].load(Ordering::SeqCst));
+                if id == 0 && round > 1 {
+                    // having passed barrier `round - 1`, every thread has finished round `round - 2`
+                    let prev = (ok[round - 2].load(Ordering::SeqCst), foreign[round - 2].load(Ordering::SeqCst));
                     if prev.0 != 1 || prev.1 != 0 || start.elapsed() > Duration::from_secs(%(budget)d) { limit.store(round, Ordering::SeqCst); }
                 }
                 // spin barrier: all threads enter the round together
